@@ -27,6 +27,10 @@ type passTracker struct {
 	parkCh  chan struct{} // first request parks here (between the already-running check and the spawn)
 	parked  chan struct{}
 	parkOn  bool
+	// holdPass: the next pass that starts is held at its very beginning until holdCh is closed (so that the verdict on the
+	// parked first request does not depend on how fast the second request's pass runs)
+	holdPass bool
+	holdCh   chan struct{}
 }
 
 func (p *passTracker) handle(name string, args ...interface{}) {
@@ -38,7 +42,12 @@ func (p *passTracker) handle(name string, args ...interface{}) {
 		if p.active > 1 {
 			p.overlap = true
 		}
+		hold := p.holdPass
+		p.holdPass = false
 		p.mu.Unlock()
+		if hold {
+			<-p.holdCh
+		}
 	case "gc.pass.exit":
 		p.mu.Lock()
 		p.active--
@@ -97,7 +106,7 @@ func (r *histRunner) doGCRequest(op *Op) error {
 	head := bkt.datas.newHead
 	before := readDataFiles(bkt.Home)
 	nextGC := bkt.NextGCChunk
-	pt := &passTracker{parkCh: make(chan struct{}), parked: make(chan struct{})}
+	pt := &passTracker{parkCh: make(chan struct{}), parked: make(chan struct{}), holdCh: make(chan struct{})}
 	hooks.mu.Lock()
 	prev := hooks.extra
 	hooks.extra = pt.handle
@@ -130,16 +139,32 @@ func (r *histRunner) doGCRequest(op *Op) error {
 		}()
 		select {
 		case <-pt.parked:
-			// the first request has passed the already-running check and is about to start its pass
+			// the first request has passed the already-running check and is about to start its pass; the second request's
+			// pass is held at its very beginning, so it is "in progress" when the first request resumes
+			pt.mu.Lock()
+			pt.holdPass = true
+			pt.mu.Unlock()
 			second.begin, second.end, second.err = r.store.GC(bid, op.Begin, op.End, days, op.Merge, op.Pretend)
 			secondIssued = true
+			if second.err == nil && !op.Pretend {
+				if e := r.waitEntered(pt); e != nil {
+					close(pt.holdCh)
+					close(pt.parkCh)
+					return e
+				}
+			}
 			close(pt.parkCh)
 			<-done
 			r.label("double_request_parked")
-			if first.err == nil && second.err == nil && !op.Pretend {
-				// wait for whatever was started, then report
+			bothAccepted := first.err == nil && second.err == nil && !op.Pretend
+			if bothAccepted {
+				// give the wrongly accepted pass the chance to show up as an overlap, then let everything finish
+				time.Sleep(2 * time.Millisecond)
+			}
+			close(pt.holdCh)
+			if bothAccepted {
 				r.waitPasses(pt)
-				return fmt.Errorf("two GC requests for bucket %d were both accepted (ranges [%d,%d] and [%d,%d]); passes started: %d, overlapped: %v",
+				return fmt.Errorf("two GC requests for bucket %d were both accepted while the pass of one of them was in progress (ranges [%d,%d] and [%d,%d]); passes started: %d, overlapped: %v",
 					bid, first.begin, first.end, second.begin, second.end, pt.enters, pt.overlap)
 			}
 		case <-done: // rejected before reaching the spawn (or pretend)
@@ -284,6 +309,23 @@ func (r *histRunner) doGCRequest(op *Op) error {
 		}
 	}
 	return nil
+}
+
+// waitEntered waits until a pass has entered (and is held).
+func (r *histRunner) waitEntered(pt *passTracker) error {
+	deadline := time.Now().Add(30 * time.Second)
+	for {
+		pt.mu.Lock()
+		n := pt.enters
+		pt.mu.Unlock()
+		if n > 0 {
+			return nil
+		}
+		if time.Now().After(deadline) {
+			return infraf("accepted GC pass did not start")
+		}
+		time.Sleep(100 * time.Microsecond)
+	}
 }
 
 func (r *histRunner) waitPasses(pt *passTracker) error {
